@@ -40,6 +40,7 @@ def instances(tier, seed):
     add("seq:construct-from-donor-arrays-then-extend-map", seq=['construct-alias'], N=3, terms={'bond': 1}, oterms='bond', cost=10)
     add("step:pop", seq=['pop'], N=3, terms={'bond': 1}, cost=3)
     add("step:extend", seq=['ext'], N=3, terms={'bond': 1}, oterms='bond', cost=10)
+    add("step:extend:improper", seq=['ext'], N=4, terms={'improper': 1, 'dihedral': 1}, oterms='improper', cost=20)
     add("step:extend-map", seq=['extmap'], N=3, terms={'dihedral': 1}, oterms='dihedral', cost=30)
     add("step:getitem", seq=['getitem'], N=4, terms={'bond': 1}, cost=10)
     add("step:copy", seq=['copy'], N=3, terms={'bond': 1, 'improper': 1}, cost=3)
